@@ -11,7 +11,7 @@ from mc.core.space import Items
 
 LRM, RLM = "‎", "‏"
 SITES_ALL = ["en", "de", "ja", "fr", "es", "it", "nl", "no", "pl", "pt", "simple", "sv"]
-REMAINDERS = ["a", "A b", "ä", "ß", "ǆ", "ı", "1a", "中", "a:b", "éa b c"]
+REMAINDERS = ["a", "A b", "ä", "ß", "ǆ", "ı", "1a", "中", "a:b", "éa b c", "a : b", "Star : Le b", "a: b :c"]
 SEPS = {"plain": ":", "sp-before": " :", "sp-after": ": ", "underscores": "_:_", "wide": "  :  ",
         # directional marks at the edge of the page part (pasted titles carry them anywhere)
         "lrm-after": ":" + LRM, "rlm-after": ":" + RLM, "sp-lrm-sp-after": ": " + LRM + " ", "us-lrm-after": ":_" + LRM}
